@@ -207,6 +207,21 @@ def _squeeze(libs, t, d=None):
     return t[tuple(idx)]
 
 
+def _expand(libs, t, *sizes):
+    sizes = _shape_args(sizes)
+    if len(sizes) < t.ndim:
+        raise PyExc('RuntimeError', 'expand: the number of sizes must be >= the number of dims')
+    pad = len(sizes) - t.ndim
+    dims = []
+    for i, s in enumerate(sizes):
+        if i < pad:
+            dims.append(('E', s))
+        else:
+            k, cur = t.dims[i - pad]
+            dims.append((k, cur if s == -1 else s))
+    return t.broadcast_to_dims(dims)
+
+
 def _expand_as(libs, t, o):
     return t.broadcast_to_dims(o.dims)
 
@@ -234,11 +249,14 @@ _METHODS = {
     'all': _reduce('all'), 'item': _reduce('item'),
     'unsqueeze': _unsqueeze, 'squeeze': _squeeze, 'expand_as': _expand_as,
     'is_contiguous': lambda libs, t: t.contig,
+    'movedim': lambda libs, t, src, dst: libs._movedim(t, src, dst),
+    'flatten': lambda libs, t, start_dim=0, end_dim=-1: libs._flatten(t, start_dim, end_dim),
+    'expand': lambda libs, t, *sizes: _expand(libs, t, *sizes),
+    'new_empty': _new_zeros,
     'repeat_interleave': lambda libs, t, repeats, dim=None: libs._repeat_interleave(t, repeats, dim),
     'chunk': lambda libs, t, chunks, dim=0: libs._torch_chunk(t, chunks, dim),
     'split': lambda libs, t, size, dim=0: libs._torch_split(t, size, dim),
     'narrow': lambda libs, t, dim, start, length: libs._torch_narrow(t, dim, start, length),
-    'new_empty': lambda libs, t, *size, **k: _new_zeros(libs, t, *size, **k),
     'type_as': lambda libs, t, o: _cast(o.dtype)(libs, t),
     'flip': lambda libs, t, *dims: libs._torch_flip(t, _shape_args(dims)),
     'roll': lambda libs, t, shifts, dims=None: libs._torch_roll(t, shifts, dims),
